@@ -186,7 +186,7 @@ pub fn run(e: &'static Engine) {
     }
     e.par(jobs);
     // automatic-mask sweep in the versions where exact penalty ties occur, plus steered matrices
-    let total: u32 = e.tier.pick(4800, 96000);
+    let total: u32 = e.tier.pick(9600, 128000);
     let shards = e.tier.pick(32u32, 96);
     let mut jobs: Vec<Job> = Vec::new();
     for _ in 0..shards {
